@@ -599,7 +599,8 @@ Definition msg_props (v5 : bool) (m : msg) : list prop :=
 (* writeLoop for a PUBLISH: topic alias rewriting *)
 Definition write_publish (c : N) (k : conn) (m : msg) : conn * list out :=
   let v5 := k_v k =? 5 in
-  if v5 && (0 <? k_client_alias_max k) then
+  (* an alias is used only if the packet still fits the client's Maximum Packet Size with the property added (+5) *)
+  if v5 && (0 <? k_client_alias_max k) && (msg_total_bytes true m + 5 <=? k_client_max_packet k) then
     match am_check (m_topic m) (k_alias_out k) with
     | (am', AOk a ex) =>
         let k' := {| k_cid := k_cid k; k_v := k_v k; k_phase := k_phase k; k_max_inflight := k_max_inflight k;
@@ -884,7 +885,9 @@ Definition replay_retained (c : N) (k : conn) (sb : sub) (s : st) : st * list ou
                | Some q =>
                    let qos := if s_qos sb <? m_qos m then s_qos sb else m_qos m in
                    (* as coded (and as the repository's own tests demand): RETAIN survives only under Retain-As-Published *)
-                   let m' := with_qos_etc m qos [] (m_retained m && s_rap sb) in
+                   (* the replayed copy carries the identifier of the subscription that caused it (it replaces whatever was stored) *)
+                   let m' := if s_id sb =? 0 then with_qos_etc m qos [] (m_retained m && s_rap sb)
+                             else with_qos_etc (as_dup m) qos [s_id sb] (m_retained m && s_rap sb) in
                    let expiry := if m_expiry m =? 0 then None else Some (b_now s0 + m_expiry m * 1000) in
                    let e := {| e_tag := b_tag s0; e_at := b_now s0; e_expiry := expiry; e_body := QPub m' |} in
                    match q_add (b_now s0) e q with
@@ -937,7 +940,7 @@ Definition handle_subscribe (c : N) (k : conn) (pid : N) (props : list prop) (to
                  let '(d', existed) := db_subscribe (k_cid k) sb (b_subs s0) in
                  let s1 := set_subs d' s0 in
                  let '(s2, o2) :=
-                   if negb (v5 && shared) && ((negb existed && negb (tq_rh t =? 2)) || (tq_rh t =? 0))
+                   if negb shared && ((negb existed && negb (tq_rh t =? 2)) || (tq_rh t =? 0))
                    then replay_retained c k sb s1 else (s1, []) in
                  (s2, o0 ++ o2, cs ++ [code])
                else (s0, o0, cs ++ [code]))
@@ -969,6 +972,10 @@ Definition handle_packet (c : N) (k : conn) (p : pkt) (s : st) : hres :=
   | KPublish dup qos retain topic payload pid props =>
       (* the decoder rejects a topic name with wildcard characters (malformed packet: the read loop ends) *)
       if has_wild topic then HErrRead s (Some 129) else
+      (* ... a Topic Alias property with value 0 (0x94, from the property decoder) *)
+      if v5 && match p_alias props with Some a => a =? 0 | None => false end then HErrRead s (Some 148) else
+      (* ... and an empty topic name unless a v5 Topic Alias stands in for it (protocol error) *)
+      if is_empty topic && negb (v5 && match p_alias props with Some _ => true | None => false end) then HErrRead s (Some 130) else
       (* readLoop: receive quota *)
       if v5 && (0 <? qos) && (k_quota k =? 0) then HErrRead s (Some 147)
       else
@@ -1028,6 +1035,7 @@ Inductive event :=
 | EConnect (c : N) (cn : connect)
 | EOpen (c : N)
 | ESend (c : N) (p : pkt)
+| ESendSz (c : N) (p : pkt) (n : N)     (* the same, with the size of the packet on the wire (an observed fact, like time) *)
 | EClose (c : N)
 | EApiPublish (m : msg)
 | ETerminate (cid : str)
@@ -1051,6 +1059,56 @@ Definition fire_wills (s : st) : st * list out :=
                else (s0, o0))
             (b_wills s) (s, []).
 
+(* readHandle refuses a packet of a v5 client that is larger than the server's Maximum Packet Size (0x95); the read
+   loop has decoded it and charged the receive quota before *)
+Definition too_big (k : conn) (n : N) (s : st) : bool :=
+  (k_v k =? 5) && (0 <? c_max_packet (b_cfg s)) && (c_max_packet (b_cfg s) <? n).
+
+Definition handle_packet_sz (c : N) (k : conn) (p : pkt) (n : N) (s : st) : hres :=
+  if too_big k n s then
+    match p with
+    | KPublish dup qos retain topic payload pid props =>
+        if has_wild topic then HErrRead s (Some 129) else
+        if match p_alias props with Some a => a =? 0 | None => false end then HErrRead s (Some 148) else
+        if is_empty topic && negb (match p_alias props with Some _ => true | None => false end) then HErrRead s (Some 130) else
+        if (0 <? qos) && (k_quota k =? 0) then HErrRead s (Some 147)
+        else
+          let k' := if 0 <? qos then set_quota (k_quota k - 1) k else k in
+          HErr (upd_conn c k' s) [] (Some 149)
+    | KSubscribe pid props topics =>
+        if forallb (fun t => let '(g, f) := split_topic (tq_name t) in valid_filter_spec f) topics
+        then HErr s [] (Some 149) else HErrRead s (Some 129)
+    | _ => HErr s [] (Some 149)
+    end
+  else handle_packet c k p s.
+
+(* a packet on a socket that is not (or no longer) connected: only the read loop looks at it *)
+Definition send_unconnected (c : N) (k : conn) (p : pkt) (s : st) : st * list out :=
+  match k_phase k with
+  | PhFresh =>
+      (* before a successful CONNECT only CONNECT/AUTH are looked at: anything else is malformed;
+         the client's version is still unknown, so the CONNACK is the 3.x form *)
+      (upd_conn c (set_phase PhDead k) s, [OSend c (KConnack false 129 [])])
+  | PhZombie =>
+      (* the read loop still runs: receive quota is charged and can end the connection *)
+      match p with
+      | KPublish _ qos _ _ _ _ _ =>
+          if (k_v k =? 5) && (0 <? qos) then
+            if k_quota k =? 0 then conn_gone c s
+            else (upd_conn c (set_quota (k_quota k - 1) k) s, [])
+          else (s, [])
+      | _ => (s, [])
+      end
+  | PhDead =>
+      (* CONNECT was refused but the read loop still runs; the receive quota of a v5 connection was never set (0),
+         so a QoS>0 PUBLISH ends the read loop and the socket is closed without a packet *)
+      match p with
+      | KPublish _ qos _ _ _ _ _ => if (k_v k =? 5) && (0 <? qos) then conn_gone c s else (s, [])
+      | _ => (s, [])
+      end
+  | _ => (s, [])
+  end.
+
 Definition step_event (s : st) (e : event) : st * list out :=
   match e with
   | EConnect c cn =>
@@ -1068,21 +1126,21 @@ Definition step_event (s : st) (e : event) : st * list out :=
               | HErr s' o code => let '(s'', o') := fail_conn c code false s' in (s'', o ++ o')
               | HErrRead s' code => fail_conn c code true s'
               end
-          | PhFresh =>
-              (* before a successful CONNECT only CONNECT/AUTH are looked at: anything else is malformed;
-                 the client's version is still unknown, so the CONNACK is the 3.x form *)
-              (upd_conn c (set_phase PhDead k) s, [OSend c (KConnack false 129 [])])
-          | PhZombie =>
-              (* the read loop still runs: receive quota is charged and can end the connection *)
-              match p with
-              | KPublish _ qos _ _ _ _ _ =>
-                  if (k_v k =? 5) && (0 <? qos) then
-                    if k_quota k =? 0 then conn_gone c s
-                    else (upd_conn c (set_quota (k_quota k - 1) k) s, [])
-                  else (s, [])
-              | _ => (s, [])
+          | _ => send_unconnected c k p s
+          end
+      | None => (s, [])
+      end
+  | ESendSz c p n =>
+      match nget c (b_conns s) with
+      | Some k =>
+          match k_phase k with
+          | PhConnected =>
+              match handle_packet_sz c k p n s with
+              | HOk s' o => (s', o)
+              | HErr s' o code => let '(s'', o') := fail_conn c code false s' in (s'', o ++ o')
+              | HErrRead s' code => fail_conn c code true s'
               end
-          | _ => (s, [])
+          | _ => send_unconnected c k p s
           end
       | None => (s, [])
       end
